@@ -517,3 +517,141 @@ func TestVerifC12Batch(t *testing.T) {
 			"a_received": texts(a, na), "b_received": texts(b, nb), "a_allowed": cs.forA, "b_allowed": cs.forB})
 	}
 }
+
+// TestVerifC12Table: histories over several sessions, one call at a time: opens (also refused handshakes, which use an ID
+// up), data posts whose elements name open, closed, unknown and other sessions, polls, closes, backends that send and hang
+// up.  Statuses, session IDs, polled messages and what each backend received are compared with Websockets/ShimTable.v.
+func TestVerifC12Table(t *testing.T) {
+	out := verifOpenOut(t)
+	defer out.close()
+	rng := &verifRng{s: verifSeed()}
+	nh := 12
+	if verifThorough() {
+		nh = 300
+	}
+	for hi := 0; hi < nh; hi++ {
+		be := newVerifWSBackend()
+		shim := newVerifShim(be.host(), false)
+		type sessT struct {
+			id          string
+			bc          *verifWSConn
+			closed      bool // left the table as far as the harness knows
+			backendGone bool
+			queued      int
+		}
+		var sess []*sessT
+		var ops []map[string]interface{}
+		msgNo := 0
+		pickID := func() (string, *sessT) {
+			switch k := rng.intn(10); {
+			case k == 0 || len(sess) == 0:
+				return "77", nil
+			default:
+				s := sess[rng.intn(len(sess))]
+				return s.id, s
+			}
+		}
+		n := 10 + rng.intn(25)
+		for i := 0; i < n; i++ {
+			switch k := rng.intn(12); {
+			case k < 2 || len(sess) == 0:
+				if rng.intn(5) == 0 {
+					r, _ := shim.open("ws://ignored/reject-handshake", "1")
+					ops = append(ops, map[string]interface{}{"op": "open", "dial_ok": false, "status": r.Status})
+					continue
+				}
+				r, id := shim.open("ws://ignored/ws", "1")
+				st := &sessT{id: id}
+				if r.Status == 200 {
+					select {
+					case st.bc = <-be.newC:
+					case <-time.After(5 * time.Second):
+					}
+					sess = append(sess, st)
+				}
+				ops = append(ops, map[string]interface{}{"op": "open", "dial_ok": true, "status": r.Status, "id": id})
+			case k < 6:
+				ne := 1 + rng.intn(4)
+				var post []map[string]interface{}
+				var elems [][2]interface{}
+				for e := 0; e < ne; e++ {
+					id, _ := pickID()
+					msgNo++
+					post = append(post, map[string]interface{}{"id": id, "msg": fmt.Sprintf("m%d", msgNo)})
+					elems = append(elems, [2]interface{}{id, msgNo})
+				}
+				body, _ := json.Marshal(post)
+				r := shim.call("data", body, nil, 10*time.Second)
+				time.Sleep(30 * time.Millisecond)
+				ops = append(ops, map[string]interface{}{"op": "data", "elems": elems, "status": r.Status})
+			case k < 8:
+				id, s := pickID()
+				if s != nil && !s.closed && s.queued == 0 && !s.backendGone {
+					continue // would be a 20 s long poll
+				}
+				r := shim.call("poll", verifSessionBody(id), nil, 25*time.Second)
+				o := map[string]interface{}{"op": "poll", "id": id, "status": r.Status}
+				if r.Status == 200 {
+					ms, _ := verifDecodePoll(r.Body, 1)
+					var l []string
+					for _, m := range ms {
+						l = append(l, string(m.Data))
+					}
+					o["msgs"] = l
+					if s != nil {
+						s.queued = 0
+					}
+				} else if s != nil && r.Status == 400 {
+					s.closed = true
+				}
+				ops = append(ops, o)
+			case k < 9:
+				id, s := pickID()
+				r := shim.call("close", verifSessionBody(id), nil, 10*time.Second)
+				if s != nil {
+					s.closed = true
+				}
+				ops = append(ops, map[string]interface{}{"op": "close", "id": id, "status": r.Status})
+			case k < 11:
+				_, s := pickID()
+				if s == nil || s.closed || s.backendGone || s.bc == nil || s.queued >= 8 {
+					continue
+				}
+				msgNo++
+				s.bc.c.WriteMessage(websocket.TextMessage, []byte(fmt.Sprintf("s%d", msgNo)))
+				s.queued++
+				time.Sleep(40 * time.Millisecond)
+				ops = append(ops, map[string]interface{}{"op": "backend-send", "id": s.id, "msg": msgNo})
+			default:
+				_, s := pickID()
+				if s == nil || s.closed || s.backendGone || s.bc == nil {
+					continue
+				}
+				s.bc.c.UnderlyingConn().Close()
+				s.backendGone = true
+				time.Sleep(80 * time.Millisecond)
+				ops = append(ops, map[string]interface{}{"op": "backend-close", "id": s.id})
+			}
+		}
+		time.Sleep(100 * time.Millisecond)
+		finals := map[string][]string{}
+		for _, s := range sess {
+			if s.bc == nil {
+				continue
+			}
+			var l []string
+			for _, m := range s.bc.received() {
+				l = append(l, string(m.Data))
+			}
+			finals[s.id] = l
+		}
+		out.emit(map[string]interface{}{"kind": "table", "index": hi, "ops": ops, "backend_received": finals})
+		for _, s := range sess {
+			if !s.closed {
+				shim.call("close", verifSessionBody(s.id), nil, 5*time.Second)
+			}
+		}
+		be.srv.CloseClientConnections()
+		be.srv.Close()
+	}
+}
